@@ -37,9 +37,10 @@ CTXS = prog.CLS_NAMES
 MARK = "mk0"
 
 POSITIONS = ["select_bare", "select_vw", "where_eq", "in_list", "between", "like", "having", "join_on", "insert_row", "replace_row", "set_value",
-             "fn_arg", "case_when", "case_then", "case_else", "tuple_elem", "array_elem", "json_term", "column_default", "do_update", "upsert_where", "load_file", "at_time_zone"]
+             "fn_arg", "case_when", "case_then", "case_else", "tuple_elem", "array_elem", "json_term", "column_default", "do_update", "upsert_where", "load_file", "at_time_zone",
+             "agg_filter_arg", "analytic_arg", "json_contains", "joined_subquery"]
 FAMILY = {"select_bare": "wrapper_cls", "set_value": "wrapper_cls", "select_vw": "explicit_vw",
-          "json_term": "json_term", "column_default": "column_default", "load_file": "load_file", "at_time_zone": "at_time_zone"}
+          "json_term": "json_term", "json_contains": "json_term", "column_default": "column_default", "load_file": "load_file", "at_time_zone": "at_time_zone"}
 
 T = ["src", "T"]
 SRC = {"T": ["tbl", "t", None, None], "U": ["tbl", "u", None, None]}
@@ -91,6 +92,18 @@ def template(pos, H):
         return base + [["select", [["attz_h", H]]]]  # a AT TIME ZONE '<zone>'
     if pos == "load_file":
         return [["load", [H]], ["into", [["py", "t"]]]]  # MySQL LOAD DATA LOCAL INFILE '<path>'
+    if pos == "agg_filter_arg":
+        # the argument of an aggregate that also has a FILTER: the function text is assembled in several steps
+        return base + [["select", [["call", ["fn", "Max", [["fn", "Coalesce", [a, H]]]], "filter", [["lt", ["col", "T", "b"], ["raw", 3]]]]]]]
+    if pos == "analytic_arg":
+        return base + [["select", [["call", ["call", ["an", "Max", [["fn", "Coalesce", [a, H]]]], "over", [a]], "orderby", [["col", "T", "b"]]]]]]
+    if pos == "json_contains":
+        # the right operand of a JSON operator (wrap_json): a document, a key, a number
+        return base + [["select", [a]], ["where", [["contains", a, H]]]]
+    if pos == "joined_subquery":
+        # inside a subquery that is the item of a JOIN .. ON
+        sub = {"cls": "inherit", "sources": {}, "steps": [["from_", [["src", "U"]]], ["select", [["col", "U", "a"]]], ["where", [["eq", ["col", "U", "b"], H]]]]}
+        return base + [["join", [["call", ["q", sub], "as_", [["py", "js"]]], ["enum", "JoinType", "inner"]], {}, ["on", [["eq", a, ["raw", 1]]]]], ["select", [a]]]
     if pos == "do_update":
         return [["into", [T]], ["insert", [["raw", 1], ["raw", 2]]], ["on_conflict", [["py", "id"]]], ["do_update", [["py", "a"], H]]]
     if pos == "upsert_where":
@@ -155,7 +168,8 @@ def to_py(vnode):
 
 prog.EXTRA_NODES["enumv"] = lambda node, env: to_py(node)
 
-SPECIAL = ["'", '"', "`", "\\", "--", "/*", "*/", "#", "?", "%s", "$1", ":x", "\n", "\r", "\t", "\0", "\x1a", "ü", "\U0001f600", "é", "ʼ", "＇", " ", ";", "%", "_", "''", "\\'", "\\\\"]
+SPECIAL = ["'", '"', "`", "\\", "--", "/*", "*/", "#", "?", "%s", "$1", ":x", "\n", "\r", "\t", "\0", "\x1a", "ü", "\U0001f600", "é", "ʼ", "＇", " ", ";", "%", "_", "''", "\\'", "\\\\",
+           "{", "}", "{}", "{0}", "{filter_sql}", "{criterion}", "%(x)s", "%%"]  # text that str.format / % would rewrite
 
 
 def str_values():
@@ -216,6 +230,8 @@ def applicable(pos, v, cls=None):
         return False
     if pos == "json_term":
         return k in ("json", "str")
+    if pos == "json_contains":
+        return k in ("json", "str")  # wrap_json: documents and keys (other values are turned into their text by contract)
     if k == "json" and isinstance(v, list) and pos not in ("json_term", "select_vw", "column_default"):
         return False  # a raw list/tuple is an Array/Tuple of values by contract, not one JSON value
     if k == "none" and pos in ("do_update",):
